@@ -686,5 +686,6 @@ WHERE
 	// Query to list index columns.
 	indexColumnsQuery = "SELECT name, desc FROM pragma_index_xinfo('%s') WHERE key = 1 ORDER BY seqno"
 	// Query to list table foreign-keys.
-	fksQuery = "SELECT `id`, `from`, `to`, `table`, `on_update`, `on_delete` FROM pragma_foreign_key_list('%s') ORDER BY id, seq"
+	// A foreign-key that was defined without parent columns (e.g. REFERENCES t) references the primary-key of its parent.
+	fksQuery = "SELECT fk.`id`, fk.`from`, COALESCE(fk.`to`, (SELECT ti.`name` FROM pragma_table_info(fk.`table`) AS ti WHERE ti.`pk` = fk.`seq` + 1)), fk.`table`, fk.`on_update`, fk.`on_delete` FROM pragma_foreign_key_list('%s') AS fk ORDER BY fk.`id`, fk.`seq`"
 )
